@@ -117,6 +117,59 @@ def run(ctx, rep):
             else:
                 rep.violation("C19.1", cons, f"the statements of block `{blk.id}` are passed on individually without a guard on its subcircuit annotation: a subcircuit block nested in a sequential block is flattened away", loc)
 
+    # a handler that receives a block either passes it on whole or consults its subcircuit annotation on the path
+    for h in helpers + [vis]:
+        hb = ix.classes[h].methods.get("visit_BlockStatement")
+        if hb is None or not any(isinstance(n, (ast.Yield, ast.YieldFrom)) for n in walk_no_nested(hb.node)):
+            continue
+        obj = hb.params[1]
+        cfgh = CFG(hb.body)
+        whole, tests = [], []
+        for st in iter_stmts(hb.body):
+            if isinstance(st, ast.Expr) and isinstance(st.value, ast.Yield) and isinstance(st.value.value, ast.Name) and st.value.value.id == obj:
+                whole.append(cfgh.node(st))
+            if isinstance(st, (ast.If, ast.While)) and any(isinstance(m, ast.Attribute) and m.attr == "subcircuit" and isinstance(m.value, ast.Name) and m.value.id == obj for m in ast.walk(st.test)):
+                tests.append(cfgh.node(st))
+        cons = construct_of(hb, "whole-or-consults-subcircuit")
+        removed_edges = [(t, b) for t in tests for b in cfgh.g.successors(t)]
+        reach = cfgh.reachable_from(cfgh.entry, removed_edges=removed_edges, removed_nodes=whole)
+        if cfgh.exit in reach:
+            rep.violation("C19.1", cons, f"there is a path through {ix.classes[h].name}.visit_BlockStatement on which the block is neither yielded whole nor its subcircuit annotation tested: a subcircuit block can be dropped or dissolved on that path", hb.loc())
+        else:
+            rep.ok("C19.1", cons, "every path yields the block whole or tests its subcircuit annotation", hb.loc())
+
+    # children are normalised before they are scheduled: the input's statements reach the result only through self.visit
+    nh = ix.classes[vis].methods.get("visit_BlockStatement")
+    if nh is not None:
+        obj = nh.params[1]
+        fln = FuncFlow(ix, T, nh)
+        cons = construct_of(nh, "children-visited-first")
+        bad = None
+        n_reads = 0
+        for n in walk_no_nested(nh.node):
+            if isinstance(n, ast.Attribute) and n.attr == "statements" and isinstance(n.value, ast.Name) and n.value.id == obj and isinstance(n.ctx, ast.Load):
+                n_reads += 1
+                par = fln.parent.get(id(n))
+                ok = False
+                if isinstance(par, ast.comprehension) and par.iter is n and isinstance(par.target, ast.Name):
+                    comp = fln.parent.get(id(par))
+                    elt = getattr(comp, "elt", None)
+                    ok = isinstance(elt, ast.Call) and any(cs.node is elt and cs.kind == "visit" for cs in T.callsites(nh)) and isinstance(elt.args[0], ast.Name) and elt.args[0].id == par.target.id
+                elif isinstance(par, ast.For) and par.iter is n and isinstance(par.target, ast.Name):
+                    v = par.target.id
+                    uses = [m for s in par.body for m in ast.walk(s) if isinstance(m, ast.Name) and m.id == v and isinstance(m.ctx, ast.Load)]
+                    ok = bool(uses) and all(isinstance(fln.parent.get(id(m)), ast.Call) and any(cs.node is fln.parent.get(id(m)) and cs.kind == "visit" for cs in T.callsites(nh)) for m in uses)
+                elif isinstance(par, ast.Call) and any(cs.node is par and cs.kind == "visit" for cs in T.callsites(nh)):
+                    ok = True
+                elif isinstance(par, ast.Call) and isinstance(par.func, ast.Name) and par.func.id == "len":
+                    ok = True
+                if not ok:
+                    bad = n
+        if bad is not None:
+            rep.violation("C19.1", cons, f"`{ast.unparse(fln.parent.get(id(bad)))}` uses the input block's statements without passing them through self.visit: nested blocks are scheduled un-normalised (wrong time steps, nested blocks left in the result)", f"{nh.path}:{bad.lineno}")
+        elif n_reads:
+            rep.ok("C19.1", cons, "the input's statements are only used as arguments of self.visit", nh.loc())
+
     # ------------------------------------------------------------ C19.2
     rep.rule("C19.2", "every element taken from an iterated input reaches an append/extend/yield on every non-raising path", floor=3)
     for f in funcs:
